@@ -97,3 +97,18 @@ Fixpoint words_from (fuel : nat) (s : store) (i : N) : res (list word) :=
                   end) (nlabels n) (nkids n);
     Ok ((if nfinal n then [[]] else []) ++ rest)
   end.
+
+(* ---------------------------------------------------------------- the automaton as a relation
+   (specification level, used by the theorems of C12)
+   [accepts s i w]: from node i the word w leads to a final node, taking for every byte the
+   first link with that label (as Lookup and commonPrefix do). *)
+Inductive accepts (s : store) : N -> word -> Prop :=
+| accepts_nil i n : sget s i = Some n -> nfinal n = true -> accepts s i []
+| accepts_cons i n c w j k :
+    sget s i = Some n -> index_of c (nlabels n) = Some j -> nth_error (nkids n) j = Some k ->
+    accepts s k w -> accepts s i (c :: w).
+
+(* [reach s i j]: node j can be reached from node i along links *)
+Inductive reach (s : store) : N -> N -> Prop :=
+| reach_refl i : reach s i i
+| reach_step i n k j : sget s i = Some n -> In k (nkids n) -> reach s k j -> reach s i j.
